@@ -206,7 +206,7 @@ func (fa *FactAnalysis) run() {
 				cand[f.Key] = f
 			}
 			// what a flag variable implies is known on this edge whatever was known before
-			for _, f := range fa.p.flagFacts(fa.f, e.Cond, e.Val, 0) {
+			for _, f := range fa.p.flagFacts(fa.f, e.Cond, e.Val, 0, false) {
 				cand[f.Key] = f
 			}
 			cur, seen := fa.in[e.To]
